@@ -59,6 +59,19 @@ pub fn replay(case: &J) -> J {
             evals += 2;
             compare_programs(canon, text, &mut mism);
         }
+        "spelling" => {
+            let (a, b) = (case["a"].as_str().unwrap(), case["b"].as_str().unwrap());
+            let run = |op: &str| {
+                let s = Session::new();
+                let prog = if a.is_empty() { format!("r = {op}{b}\nq = z") } else { format!("r = {a} {op} {b}\nq = z") };
+                let r = s.run(&prog, false);
+                (prog, r.iter().map(|o| describe(o, &s)).collect::<Vec<_>>())
+            };
+            let (p1, r1) = run(case["sym"].as_str().unwrap());
+            let (p2, r2) = run(case["word"].as_str().unwrap());
+            evals += 2;
+            if r1 != r2 { mism.push(json!({"src": p1, "other": p2, "exp": r2, "obs": r1})); }
+        }
         "name" => {
             let name = case["name"].as_str().unwrap();
             let reference = Session::new().run(&name_program("zq"), true);
